@@ -1,6 +1,7 @@
 import Mp4ff.Model.Aac
 import Mp4ff.Lemmas.C18Proofs
 import Mp4ff.Props.C18b
+import Mp4ff.Expect.Transcribed
 /-!
 # C18 — audio configuration codecs are exact over their whole domain
 Property theorems (proofs in `Mp4ff/Lemmas/C18Proofs.lean`).  The esds / MPEG-4 descriptor framing and the
@@ -40,5 +41,10 @@ example : AscDom ⟨29, 1, 22050, 44100, true, true⟩ := by simp [AscDom]
 example : AscDom ⟨2, 15, 12345, 0, false, false⟩ := by simp [AscDom]
 example : AdtsDom ⟨0, 2, 3, 2, 7, 8184, 0x7ff⟩ := by simp [AdtsDom]
 example : NoFalseSync [0x47, 0xff, 0xff, 0xfe, 0x00, 0xff] := by simp [NoFalseSync]
+
+/-- the Go functions the models of this property transcribe (committed table `spec/transcribed.json`, checked against
+    the current source by the extractor on every run) all still exist -/
+theorem model_sources_exist :
+    (["Aac.lean", "Bits.lean", "Boxes.lean", "Esds.lean"] : List String).all Mp4ff.Expect.presentFor = true := by decide +kernel
 
 end Mp4ff.Aac.C18
